@@ -75,7 +75,14 @@ func New(open func() (ReadAtCloser, error), gracePeriod time.Duration) *SharedFi
 // bypassed at refs==0 so the FD stays open and registered until
 // the pool evicts or [SharedFile.Close] is called. Pass nil for
 // pool to disable pooling (equivalent to [New]).
+//
+// A no-op pool (capacity <= 0, see [fdpool.New]) never evicts, so it
+// cannot govern the descriptor's lifetime; it is treated like a nil
+// pool and the grace timer applies.
 func NewWithPool(open func() (ReadAtCloser, error), gracePeriod time.Duration, pool *fdpool.Pool) *SharedFile {
+	if pool != nil && pool.Stats().Capacity <= 0 {
+		pool = nil
+	}
 	return &SharedFile{open: open, gracePeriod: gracePeriod, pool: pool}
 }
 
